@@ -157,13 +157,17 @@ def _base_members():
             {"name": "c", "kind": "file", "data": b"z" * 40, "mtime": 5, "attributes": 0x20}]
 
 
-def _seqs(rng, n):
+def _seqs(rng, n, singles=False):
     out = [["getnames"], ["extractall"], ["testzip"], ["test"], ["list"], ["extractall", "extractall"], ["extract", "extract"], ["testzip", "testzip"],
            ["extractall", "testzip"], ["extractall", "reset", "extractall"], ["testzip", "extractall"], ["extract", "reset", "testzip", "extractall"]]
     rng.shuffle(out)
     out = out[: max(1, n // 2)]
     while len(out) < n:
         out.append([rng.choice(OPS) for _ in range(rng.randint(1, 4))])
+    if singles:
+        # every entry point alone on every mutated header: which call meets which number must not be left to the shuffle
+        # (the regression drill lost seed C05-read-digest-no-eof, test() on a huge pack size, to a reshuffle)
+        out = [s_ for s_ in (["test"], ["testzip"], ["extractall"], ["list"]) if s_ not in out] + out
     return out
 
 
@@ -225,7 +229,7 @@ def cases(rng, tier):
             rmuts = rmuts[:150]
         muts += rmuts
         for i in range(0, len(muts), 12):
-            out.append({"fam": "struct", "layout": li, "muts": muts[i : i + 12], "seqs": _seqs(rng, nseq), "open": "stream"})
+            out.append({"fam": "struct", "layout": li, "muts": muts[i : i + 12], "seqs": _seqs(rng, nseq, singles=True), "open": "stream"})
         rawlen = len(W.emit_tokens(toks))
         ranges = []
         for _ in range(30 if tier == "quick" else 300):
